@@ -372,6 +372,9 @@ func (ex *Exec) tryNative(fn *ssa.Function, args []Value) (Value, bool) {
 		if b, ok := concInt(args[1]); ok && iok {
 			return strconv.FormatInt(i0, int(b)), true
 		}
+		if b, ok := concInt(args[1]); ok && (b == 10 || b == 16) {
+			return ex.formatIntStub(args[0].(*smt.Term), int(b), true), true
+		}
 	case "strconv.Itoa":
 		if iok {
 			return strconv.Itoa(int(i0)), true
@@ -379,6 +382,9 @@ func (ex *Exec) tryNative(fn *ssa.Function, args []Value) (Value, bool) {
 	case "strconv.FormatUint":
 		if b, ok := concInt(args[1]); ok && iok {
 			return strconv.FormatUint(uint64(i0), int(b)), true
+		}
+		if b, ok := concInt(args[1]); ok && (b == 10 || b == 16) {
+			return ex.formatIntStub(args[0].(*smt.Term), int(b), false), true
 		}
 	case "strconv.ParseInt":
 		b, ok1 := concInt(args[1])
@@ -565,3 +571,67 @@ func toNative(itf Iface) (interface{}, bool) {
 	return nil, false
 }
 
+
+// formatIntStub is the contract of strconv.FormatInt / FormatUint for a symbolic
+// argument: the shortest digit string of x in the base (forking on sign and
+// digit count).  Base 16 digits are nibbles of x; base 10 digits are fresh
+// variables d_i in 0..9 constrained by x = sum d_i * 10^k, so that the *real*
+// ParseInt / scanner code is then checked against that contract.
+func (ex *Exec) formatIntStub(x *smt.Term, base int, signed bool) Value {
+	ex.Stubs["strconv.FormatInt/FormatUint (symbolic: contract stub)"]++
+	c64 := func(v uint64) *smt.Term { return smt.BVC(64, v) }
+	neg := false
+	m := x
+	if signed && ex.P.branch(smt.SLt(x, c64(0))) {
+		neg = true
+		m = smt.Neg(x)
+	}
+	var out []*smt.Term
+	if neg {
+		out = append(out, byteConst['-'])
+	}
+	if base == 16 {
+		L := 1
+		for L < 16 && !ex.P.branch(smt.ULt(m, c64(uint64(1)<<(4*uint(L))))) {
+			L++
+		}
+		for i := 0; i < L; i++ {
+			n := smt.BAnd(smt.LShr(m, c64(uint64(4*(L-1-i)))), c64(15))
+			n8 := smt.Resize(n, 8, false)
+			ch := smt.Ite(smt.ULt(n8, smt.BVC(8, 10)), smt.Add(n8, smt.BVC(8, '0')), smt.Add(n8, smt.BVC(8, 'a'-10)))
+			out = append(out, ch)
+		}
+		return mkStr(out)
+	}
+	L := 1
+	pow := uint64(10)
+	for L < 20 {
+		if ex.P.branch(smt.ULt(m, c64(pow))) {
+			break
+		}
+		L++
+		if L == 20 {
+			break
+		}
+		pow *= 10
+	}
+	ex.P.nChoice++
+	sum := c64(0)
+	p10 := uint64(1)
+	ds := make([]*smt.Term, L)
+	for i := L - 1; i >= 0; i-- {
+		d := ex.P.newInput(fmt.Sprintf("fmtint#%d.d%d", ex.P.nChoice, i), smt.BV(8))
+		ds[i] = d
+		ex.P.assert(smt.ULe(d, smt.BVC(8, 9)))
+		sum = smt.Add(sum, smt.Mul(smt.Resize(d, 64, false), c64(p10)))
+		p10 *= 10
+	}
+	if L > 1 {
+		ex.P.assert(smt.Not(smt.Eq(ds[0], smt.BVC(8, 0))))
+	}
+	ex.P.assert(smt.Eq(sum, m))
+	for _, d := range ds {
+		out = append(out, smt.Add(d, smt.BVC(8, '0')))
+	}
+	return mkStr(out)
+}
